@@ -168,3 +168,134 @@ Example blockdep_example :
               co_pt := 0; co_pl := 0; co_pb := 0; co_pr := 0 |} in
   calc_blockdep ar (Some p) c = Some 2 /\ 0 < round_up_divide (fm_d (co_ifm c)) 16.
 Proof. cbv zeta. split; vm_compute; reflexivity. Qed.
+
+(* ------------------------------------------------------------------ footprint_overapprox *)
+(* Do the per-tile bounding ranges of get_address_ranges (the ranges get_op_memory_accesses hands
+   to the conflict test, and calc_blockdep uses to classify overlap) contain every element of the
+   feature map?  Only if tile 3 is never in use without tile 2. *)
+Lemma chan_mono sc e c c' :
+  0 <= e -> 16 * e <= sc -> c <= c' ->
+  (c / 16) * sc + (c mod 16) * e <= (c' / 16) * sc + (c' mod 16) * e.
+Proof.
+  intros He Hsc Hc.
+  pose proof (Z.div_mod c 16 ltac:(lia)) as E1. pose proof (Z.mod_pos_bound c 16 ltac:(lia)) as B1.
+  pose proof (Z.div_mod c' 16 ltac:(lia)) as E2. pose proof (Z.mod_pos_bound c' 16 ltac:(lia)) as B2.
+  set (q := c / 16) in *. set (r := c mod 16) in *. set (q' := c' / 16) in *. set (r' := c' mod 16) in *.
+  assert (Hq : q <= q') by lia.
+  destruct (Z.eq_dec q q') as [->|Hne].
+  - assert (r <= r') by lia. nia.
+  - assert (H1 : 1 <= q' - q) by lia.
+    assert (H2 : sc <= (q' - q) * sc) by nia.
+    assert (H3 : (r - r') * e <= 15 * e) by nia.
+    nia.
+Qed.
+
+(* get_address is monotone in every coordinate inside one tile *)
+Lemma address_between fm s_h s_w s_d y0 x0 c0 y1 x1 c1 y x c :
+  0 <= s_h -> 0 <= s_w -> 0 < fm_elem fm -> (fm_b16 fm = true -> 16 * fm_elem fm <= s_d) ->
+  ((fm_w0 fm <=? x0) = (fm_w0 fm <=? x1)) ->
+  ((fm_h1 fm <=? y0) = (fm_h1 fm <=? y1) \/ (fm_w0 fm <=? x0) = false) ->
+  ((fm_h0 fm <=? y0) = (fm_h0 fm <=? y1) \/ (fm_w0 fm <=? x0) = true) ->
+  y0 <= y <= y1 -> x0 <= x <= x1 -> c0 <= c <= c1 ->
+  get_address fm (s_h, s_w, s_d) y0 x0 c0 <= get_address fm (s_h, s_w, s_d) y x c /\
+  get_address fm (s_h, s_w, s_d) y x c <= get_address fm (s_h, s_w, s_d) y1 x1 c1.
+Proof.
+  intros Hsh Hsw He Hsd Tx Ty1 Ty0 Hy Hx Hc. unfold get_address.
+  set (sc := if fm_b16 fm then s_d else 16 * fm_elem fm).
+  set (sx := if fm_b16 fm then 16 * fm_elem fm else s_w).
+  assert (Hsc : 16 * fm_elem fm <= sc) by (unfold sc; destruct (fm_b16 fm); [apply Hsd; reflexivity | lia]).
+  assert (Hsx : 0 <= sx) by (unfold sx; destruct (fm_b16 fm); lia).
+  pose proof (chan_mono sc (fm_elem fm) c0 c ltac:(lia) Hsc ltac:(lia)) as M1.
+  pose proof (chan_mono sc (fm_elem fm) c c1 ltac:(lia) Hsc ltac:(lia)) as M2.
+  destruct (Z.leb_spec (fm_w0 fm) x0) as [A0|A0]; destruct (Z.leb_spec (fm_w0 fm) x1) as [A1|A1]; try discriminate;
+    destruct (Z.leb_spec (fm_w0 fm) x) as [A|A]; try lia.
+  - destruct Ty1 as [Ty1|Ty1]; [|discriminate].
+    destruct (Z.leb_spec (fm_h1 fm) y0) as [B0|B0]; destruct (Z.leb_spec (fm_h1 fm) y1) as [B1|B1]; try discriminate;
+      destruct (Z.leb_spec (fm_h1 fm) y) as [B|B]; try lia; split; nia.
+  - destruct Ty0 as [Ty0|Ty0]; [|discriminate].
+    destruct (Z.leb_spec (fm_h0 fm) y0) as [B0|B0]; destruct (Z.leb_spec (fm_h0 fm) y1) as [B1|B1]; try discriminate;
+      destruct (Z.leb_spec (fm_h0 fm) y) as [B|B]; try lia; split; nia.
+Qed.
+
+Definition strides_ok (fm : fmap) : Prop :=
+  let '(s_h, s_w, s_d) := get_strides fm in
+  0 <= s_h /\ 0 <= s_w /\ 0 < fm_elem fm /\ (fm_b16 fm = true -> 16 * fm_elem fm <= s_d).
+
+(* an element address lies in one of the reported ranges *)
+Definition covered_by (fm : fmap) (y x c : Z) (l : list (option arange)) : Prop :=
+  exists a len, In (Some (fm_region fm, a, len)) l /\
+    a <= get_address fm (get_strides fm) y x c /\
+    get_address fm (get_strides fm) y x c + fm_elem fm <= a + len.
+
+(* PARTIAL: holds when tile 3 (right of width_0, below height_1) is not in use without tile 2
+   (left of width_0, below height_0) *)
+Theorem footprint_overapprox_partial_lemma fm y x c :
+  strides_ok fm ->
+  (fm_w fm > fm_w0 fm -> fm_h fm > fm_h1 fm -> fm_h fm > fm_h0 fm) ->
+  0 <= y < fm_h fm -> 0 <= x < fm_w fm -> 0 <= c < fm_d fm ->
+  covered_by fm y x c (get_address_ranges fm).
+Proof.
+  unfold strides_ok, covered_by, get_address_ranges. destruct (get_strides fm) as [[s_h s_w] s_d] eqn:Est.
+  intros (Hsh & Hsw & He & Hsd) Ht Hy Hx Hc. unfold get_address_range.
+  destruct (Z.leb_spec (fm_w0 fm) x) as [A|A]; [destruct (Z.leb_spec (fm_h1 fm) y) as [B|B] | destruct (Z.leb_spec (fm_h0 fm) y) as [B|B]].
+  - (* tile 3 *)
+    destruct (Z.gtb_spec (fm_w fm) (fm_w0 fm)) as [G1|G1]; [|lia].
+    destruct (Z.gtb_spec (fm_h fm) (fm_h0 fm)) as [G2|G2]; [|lia].
+    assert (LU : get_address fm (s_h, s_w, s_d) (fm_h1 fm) (fm_w0 fm) (0) <= get_address fm (s_h, s_w, s_d) y x c /\
+                 get_address fm (s_h, s_w, s_d) y x c <= get_address fm (s_h, s_w, s_d) (fm_h fm - 1) (fm_w fm - 1) (fm_d fm - 1)).
+    { apply address_between; try assumption; try lia. }
+    eexists. eexists. split; [right; right; right; left; reflexivity|]. lia.
+  - (* tile 1 *)
+    destruct (Z.gtb_spec (fm_w fm) (fm_w0 fm)) as [G1|G1]; [|lia].
+    assert (LU : get_address fm (s_h, s_w, s_d) (0) (fm_w0 fm) (0) <= get_address fm (s_h, s_w, s_d) y x c /\
+                 get_address fm (s_h, s_w, s_d) y x c <= get_address fm (s_h, s_w, s_d) (Z.min (fm_h fm) (fm_h1 fm) - 1) (fm_w fm - 1) (fm_d fm - 1)).
+    { apply address_between; try assumption; try lia. }
+    eexists. eexists. split; [right; left; reflexivity|]. lia.
+  - (* tile 2 *)
+    destruct (Z.gtb_spec (fm_h fm) (fm_h0 fm)) as [G2|G2]; [|lia].
+    assert (LU : get_address fm (s_h, s_w, s_d) (fm_h0 fm) (0) (0) <= get_address fm (s_h, s_w, s_d) y x c /\
+                 get_address fm (s_h, s_w, s_d) y x c <= get_address fm (s_h, s_w, s_d) (fm_h fm - 1) (Z.min (fm_w fm) (fm_w0 fm) - 1) (fm_d fm - 1)).
+    { apply address_between; try assumption; try lia. }
+    eexists. eexists. split; [right; right; left; reflexivity|]. lia.
+  - (* tile 0 *)
+    assert (LU : get_address fm (s_h, s_w, s_d) (0) (0) (0) <= get_address fm (s_h, s_w, s_d) y x c /\
+                 get_address fm (s_h, s_w, s_d) y x c <= get_address fm (s_h, s_w, s_d) (Z.min (fm_h fm) (fm_h0 fm) - 1) (Z.min (fm_w fm) (fm_w0 fm) - 1) (fm_d fm - 1)).
+    { apply address_between; try assumption; try lia. }
+    eexists. eexists. split; [left; reflexivity|]. lia.
+Qed.
+
+(* REFUTED at full strength: an 8x8x16 NHWC int8 feature map whose left column is one tile
+   (height_0 = 8) and whose right column is split (height_1 = 4, width_0 = 4): element (4,4,0) lives in
+   tile 3 at address 0x2000, and no range of get_address_ranges contains it (tile 3 is only reported
+   when tile 2 is in use) *)
+Definition refuting_fm : fmap :=
+  {| fm_region := 1; fm_h := 8; fm_w := 8; fm_d := 16; fm_h0 := 8; fm_h1 := 4; fm_w0 := 4;
+     fm_a0 := 0; fm_a1 := 4096; fm_a2 := 0; fm_a3 := 8192; fm_b16 := false; fm_elem := 1;
+     fm_has_strides := false; fm_sh := 0; fm_sw := 0; fm_sd := 0 |}.
+
+Definition covered_byb (fm : fmap) (y x c : Z) (l : list (option arange)) : bool :=
+  let ad := get_address fm (get_strides fm) y x c in
+  existsb (fun o => match o with
+                    | Some (rg, a, len) => (rg =? fm_region fm) && (a <=? ad) && (ad + fm_elem fm <=? a + len)
+                    | None => false end) l.
+
+Lemma covered_byb_complete fm y x c l : covered_by fm y x c l -> covered_byb fm y x c l = true.
+Proof.
+  intros (a & len & Hin & H1 & H2). unfold covered_byb. apply existsb_exists.
+  exists (Some (fm_region fm, a, len)). split; [exact Hin|].
+  rewrite Z.eqb_refl. cbn [andb]. apply andb_true_iff. split; [apply Z.leb_le | apply Z.leb_le]; assumption.
+Qed.
+
+Theorem footprint_overapprox_refuted_lemma :
+  exists fm y x c,
+    strides_ok fm /\ 0 <= y < fm_h fm /\ 0 <= x < fm_w fm /\ 0 <= c < fm_d fm /\
+    get_address fm (get_strides fm) y x c = 8192 /\
+    get_address_ranges fm = [Some (1, 0, 960); Some (1, 4096, 448); None; None] /\
+    ~ covered_by fm y x c (get_address_ranges fm).
+Proof.
+  exists refuting_fm, 4, 4, 0.
+  split. { unfold strides_ok. cbn. repeat split; try lia; try discriminate. }
+  split. { cbn; lia. } split. { cbn; lia. } split. { cbn; lia. }
+  split. { vm_compute; reflexivity. } split. { vm_compute; reflexivity. }
+  intros H. apply covered_byb_complete in H. vm_compute in H. discriminate.
+Qed.
